@@ -286,6 +286,9 @@ def _stable_key(e: ast.expr) -> bool:
         return _stable_key(e.func.value)
     if isinstance(e, ast.Tuple):
         return all(_stable_key(x) for x in e.elts)
+    # a table written out in place (a constant one that was inlined)
+    if isinstance(e, ast.Dict) and e.keys and all(isinstance(k, ast.Constant) for k in e.keys) and all(_stable_key(v) for v in e.values):
+        return True
     return False
 
 
